@@ -258,7 +258,7 @@ class StubGit:
 def repo_update(sl):
     g = StubGit()
     remote = sl["remote"]
-    vtext, V = sl["version"], tuple(sl["V"])
+    vtext, V = sl["version"], (tuple(sl["V"]) if sl["V"] is not None else None)
     with shadowed(repo, (), extra={"git": g, "console": _Quiet}):
         r = repo.RallyRepository("http://example.org/tracks" if remote else None, "/nonexistent-root", "default", "tracks", offline=False,
                                  fetch=False)
@@ -271,13 +271,19 @@ def repo_update(sl):
     rem = [b for b in CAND_BRANCHES if b in g.cache.get("remote", [])]
     loc = [b for b in CAND_BRANCHES if b in g.cache.get("local", [])]
     target, via = None, None
+
+    def best(listing):
+        if V is None:  # unknown version (none given / serverless): master if the repository has it, nothing else
+            return "master" if any(b[5] == "master" for b in listing) else None
+        return documented_best_match(listing, V)
+
     if remote:
-        target = documented_best_match(g.cache.get("remote", []), V)
+        target = best(g.cache.get("remote", []))
         via = "remote" if target else None
     if not target:
-        target = documented_best_match(g.cache.get("local", []), V)
+        target = best(g.cache.get("local", []))
         via = "local" if target else None
-    if not target:
+    if not target and V is not None:
         M, m, p, s = V
         for cand in (["v%d.%d.%d-%s" % (M, m, p, s)] if s else []) + ["v%d.%d.%d" % (M, m, p), "v%d.%d" % (M, m), "v%d" % M]:
             if cand in g.cache.get("tags", []):
@@ -364,13 +370,26 @@ def git_listing(sl):
     remote = sl["remote"]
     refs = REMOTE_REFS if remote else LOCAL_REFS
     chosen = [(r, b) for (r, b) in refs if bool(fresh_bool("ref_%s" % r.strip().replace("/", "_")))]
+    # a local repository may also carry TAGS named like a branch (release tags "2.1", "3"): git then prints the branch's short name as
+    # "heads/2.1" - `%(refname:short)` is the shortest UNAMBIGUOUS name (git-for-each-ref(1)), `%(refname:lstrip=2)` always the plain name
+    same_named_tags = set() if remote else {t for t in ("2.1", "3") if bool(fresh_bool("tag_named_like_branch_%s" % t.replace(".", "_")))}
     cmds = []
+
+    def printed(r, fmt):
+        name = r.strip()
+        if "%(refname:short)" in fmt:
+            out = ("heads/" + name) if name in same_named_tags else name
+        elif "%(refname:lstrip=2)" in fmt or "%(refname:strip=2)" in fmt:
+            out = "origin/HEAD" if name == "origin" else name
+        else:
+            raise AssertionError("git stub: unknown format in %r" % fmt)
+        return r.replace(name, out)
 
     class Proc:
         @staticmethod
         def run_subprocess_with_output(cmd):
             cmds.append(cmd)
-            return [r for (r, _) in chosen]
+            return [printed(r, cmd) for (r, _) in chosen]
 
         @staticmethod
         def run_subprocess_with_logging(cmd, **kw):
@@ -444,7 +463,7 @@ HARNESSES = [
     Harness("repo_update", repo_update, "symbolic",
             lambda tier: [{"remote": r, "version": v, "V": V} for r in (True, False)
                           for (v, V) in (("2.1.0", (2, 1, 0, None)), ("2.2.1", (2, 2, 1, None)), ("3.0.0", (3, 0, 0, None)), ("2.1.0-SNAPSHOT", (2, 1, 0, "SNAPSHOT")),
-                                         ("1.5.0", (1, 5, 0, None)))],
+                                         ("1.5.0", (1, 5, 0, None)), (None, None), ("", None), ("serverless", None))],
             reads=READS, stubs=["git module inside esrally.utils.repo (symbolic branch/tag subsets, current branch, checkout/rebase failures)", "console"],
             bounds={"remote/local branches": "any subset of %s" % [b[5] for b in CAND_BRANCHES], "tags": "any subset of %s" % CAND_TAGS,
                     "failures": "each checkout and the rebase may raise SupplyError"},
